@@ -128,9 +128,18 @@ func init() {
 					r.AnchorMissing("transport.(*tcpHandler)." + name)
 					continue
 				}
+				// the broadcast: a call of a function that fetches the close message, or that fetch itself when the
+				// broadcast is written in line
 				var call ssa.Instruction
 				eachInstr(fn, func(in ssa.Instruction) {
-					if c := callCommon(in); c != nil && c.StaticCallee() == bcast {
+					c := callCommon(in)
+					if c == nil {
+						return
+					}
+					if sc := c.StaticCallee(); sc != nil && sc.Pkg == fn.Pkg && fetchesCloseMsg(sc, 2) {
+						call = in
+					}
+					if call == nil && c.IsInvoke() && c.Method.Name() == "GetCloseMsg" {
 						call = in
 					}
 				})
@@ -175,7 +184,7 @@ func init() {
 						}
 					}
 				})
-				if !usedByRange || !(fn.Parent() == bcast || fn.Parent().Name() == "CloseIdles") {
+				if !usedByRange || !(fn.Parent() == bcast || fetchesCloseMsg(fn.Parent(), 0) || fn.Parent().Name() == "CloseIdles") {
 					continue
 				}
 				all := true
@@ -507,3 +516,23 @@ func canEnqueue(f *ssa.Function, seen map[*ssa.Function]bool, depth int) bool {
 }
 
 var _ = types.Typ
+
+// fetchesCloseMsg: fn (or a same-package static callee up to depth d) invokes ServerProtocol.GetCloseMsg.
+func fetchesCloseMsg(fn *ssa.Function, d int) bool {
+	if fn == nil || fn.Blocks == nil {
+		return false
+	}
+	found := false
+	eachInstr(fn, func(in ssa.Instruction) {
+		c := callCommon(in)
+		if c == nil || found {
+			return
+		}
+		if c.IsInvoke() && c.Method.Name() == "GetCloseMsg" {
+			found = true
+		} else if sc := c.StaticCallee(); sc != nil && d > 0 && sc.Pkg == fn.Pkg && sc != fn && fetchesCloseMsg(sc, d-1) {
+			found = true
+		}
+	})
+	return found
+}
